@@ -1,6 +1,6 @@
 """C13 Hashing neither depends on nor disturbs the caller's FP environment."""
 import astq
-from rules import driver, jit
+from rules import driver, jit, cfrcross
 from rules.C14 import rule_globals
 
 LEVEL = 'other'
@@ -21,6 +21,9 @@ EXPLANATION = ('CFG dominance rules on randomx_calculate_hash/_next/_last in con
 
 EXPLANATION += ' DRV-FPENV also on the fenv build (K1); feupdateenv is not a restore.'
 
+EXPLANATION += ' A64-CFR-BITS, RV-CFR-BITS.'
+CLAIM += (' On the A64 and RV64 back-ends CFROUND writes a control word that depends on two bits of the source register only and maps them as Table 4.3.1 prescribes (A64-CFR-BITS, RV-CFR-BITS).')
+
 
 def run(ctx, R):
     F = astq.Facts(ctx, 'K0')
@@ -31,3 +34,5 @@ def run(ctx, R):
     driver.rule_noleak(ctx, R)
     jit.rule_cfr_x86(ctx, R, F)
     rule_globals(ctx, R)    # the saved control word lives in the calling thread (no shared static state between concurrent hashes)
+    cfrcross.rule_a64(ctx, R)
+    cfrcross.rule_rv(ctx, R)
